@@ -9,7 +9,8 @@ from pathlib import Path
 from harness import common, rules
 from harness.common import Ctx, NCPU
 
-COMP_NAMES = ["a", "ab", "b", "core", "api", "x1", "ui", "db", "m2", "m10", "svc_\u00e9", "cache", "auth", "z"]
+COMP_NAMES = ["a", "ab", "b", "core", "api", "x1", "ui", "db", "m2", "m10", "svc_\u00e9", "cache", "auth", "z",
+              "lib.core", "lib.util", "deep.er.mod", "ext.v1.client"]      # components that are themselves dotted (below the base module)
 
 
 def denote(nodes, comp):
@@ -52,6 +53,10 @@ def gen_case(rng):
     for i in range(1, len(parts) + 1):
         nodes.add(".".join(parts[:i]))
     nodes.update(comps)
+    for c in comps:
+        parts_c = c.split(".")
+        for i in range(1, len(parts_c)):
+            nodes.add(".".join(parts_c[:i]))          # the packages a dotted component lies in
     for c in comps:
         for _ in range(rng.randint(0, 2)):
             nodes.add(c + "." + rng.choice(["m", "n", "sub"]))
